@@ -50,6 +50,7 @@ def run_cases(text, profile='release', timeout=600):
 _CMP_KEYS = ('eq', 'live', 'nodes', 'progress', 'classes', 'union_ret', 'readd')
 def _norm_step(s):
     d = {k: s.get(k) for k in _CMP_KEYS if k in s}
+    if 'classes' in d: d['classes'] = {i: {k: v for k, v in c.items() if k in ('nslots', 'gcount', 'data')} for i, c in d['classes'].items()}
     d['canon'] = [{k: c[k] for k in ('id', 'idem', 'nslots', 'vals', 'map', 'hvals')} for c in s['canon']]
     chk = s.get('check')
     if chk is not None:
